@@ -11,10 +11,12 @@ import subprocess
 import sys
 from concurrent.futures import ThreadPoolExecutor
 
+from . import c06_cost as K
 from . import core
 from .core import Check, exc_code, zlist
 
 IMPORTS = ["Base.Prelude", "Malformed.Model"]
+COST_IMPORTS = ["Base.Prelude", "Psd.Codec", "Psd.Model", "Malformed.CostTwin"]
 FIXDIR = os.path.join(core.REPO, "tests", "psd_files")
 RLIMIT_MB = 6144
 PER_INPUT_S = 30
@@ -339,14 +341,40 @@ def run_batches(ck, inputs, mode="open", secs=None):
     return out
 
 
+def split_reads(r):
+    """'outcome |r=calls,bytes' -> (outcome, calls, bytes); a dead worker leaves no counter"""
+    o, sep, c = r.partition(" |r=")
+    if not sep:
+        return r, None, None
+    try:
+        a, b = c.split(",")
+        return o, int(a), int(b)
+    except ValueError:
+        return o, None, None
+
+
 def run():
+    import time
+
     ck = Check("C06")
+    stages, t_last = {}, [time.time()]
+
+    def stage(name):
+        now = time.time()
+        stages[name] = round(now - t_last[0], 1)
+        t_last[0] = now
+
     ck.rule = ("(a) header reader: all single and pairwise field substitutions from critical value sets, every truncation, random bit flips "
                "- model vs FileHeader.read; (b) count-driven loop: descriptor List.read on declared counts {0..5, 2^31-1, 2^31, 2^32-1} x items present x tails "
                "- model vs implementation incl. iteration counts; (c) supervised PSDImage.open (RLIMIT_AS %d MB, %d s alarm, crash detection) on every truncation offset of small files, "
                "structural boundaries and strides of larger ones, bit flips in header/length fields, max-value substitutions in aligned 2/4/8-byte fields, substitutions, splices; "
-               "non-trivial = mutant distinct from its seed that is not rejected by the header check alone" % (RLIMIT_MB, PER_INPUT_S))
-    ok = ck.coq_build(["theories/Malformed/Proofs.v", "theories/Properties/C06.v"])
+               "non-trivial = mutant distinct from its seed that is not rejected by the header check alone; every supervised open also counts its fp.read calls (<= %d*len+%d); "
+               "(e) cost: container-level PSD.read (payload registries emptied, in a forked child) on hand-built and generated small documents, their truncations and "
+               "max/zero/bit-flip mutants - outcome, number of fp.read calls, item-reader calls and bytes returned vs the instrumented twin of Psd/Model.read_psd, and vs the "
+               "proved bounds ticks <= 2*len+1, bytes <= 6*len; (f) every payload class of the registries on a maximal / large / zero count at every offset under "
+               "RLIMIT_AS, an alarm and the read counter; (g) documents declaring maximal geometry: opened, then every decoding entry point run under the limit"
+               % (RLIMIT_MB, PER_INPUT_S, K.FULL_C, K.FULL_K))
+    ok = ck.coq_build(["theories/Malformed/Proofs.v", "theories/Malformed/CostThms.v", "theories/Properties/C06.v"])
     if ok:
         ck.collect_theorems("C06.v")
     from psd_tools.constants import ColorMode
@@ -354,6 +382,7 @@ def run():
     modes = sorted(int(m.value) for m in ColorMode)
     ck.coq_gen("Gen_Modes", "From PsdV Require Import Base.Prelude Malformed.Model.\nOpen Scope Z_scope.\n"
                "Lemma live_color_modes : color_modes = %s.\nProof. reflexivity. Qed.\n" % zlist(modes))
+    stage("coq-build+theorems")
     # (a) header
     hs = list(dict.fromkeys(gen_headers(ck)))
     cases = []
@@ -371,6 +400,7 @@ def run():
     bad = ck.correspond("header", "observe_header", IMPORTS, cases, zlist, chunk=1500)
     for i in bad[:3]:
         ck.notes.append("header model/impl differ on %r: impl %r" % cases[i])
+    stage("header")
     # (b) list loop
     ls = list(dict.fromkeys(gen_lists(ck)))
     lcases = []
@@ -389,20 +419,28 @@ def run():
     bad = ck.correspond("list_loop", "observe_list", IMPORTS, lcases, zlist, chunk=1500)
     for i in bad[:3]:
         ck.notes.append("list model/impl differ on %r: impl %r" % lcases[i])
+    stage("list-loop")
     # (c) supervised opens -- one seed at a time, so that the mutants of one file only are held in memory
     slow = 0.0
     total = 0
     last = None
+    worst_reads = [-10 ** 9]
 
     def judge(inputs, meta, res):
         nonlocal slow, last
         for cid, b in inputs:
             name, desc = meta[cid]
             t, r = res.get(cid, (0.0, "WORKER-FAILED no outcome recorded"))
+            r, reads, _nb = split_reads(r)
             slow = max(slow, t)
             kind = desc.split("@")[0]
             ck.count("mut:" + kind)
             cls = r.split()[0]
+            if reads is not None and cls in ("ok", "exc"):
+                worst_reads[0] = max(worst_reads[0], reads - K.FULL_C * len(b))
+                if reads > K.FULL_C * len(b) + K.FULL_K:
+                    ck.fail("open-reads-exceed-linear-bound", {"seed": name, "mutation": desc, "bytes": b}, "%d fp.read calls on %d bytes (%s)" % (reads, len(b), r),
+                            "<= %d * %d + %d: every loop iteration consumes data or stops" % (K.FULL_C, len(b), K.FULL_K))
             ck.count("outcome:" + (r if cls == "exc" else cls))
             hv = header_valid_independent(b)
             if hv:
@@ -436,6 +474,7 @@ def run():
     res = run_batches(ck, inputs)
     judge(inputs, meta, res)
     total += len(inputs)
+    stage("supervised-opens")
     # (d) adversarial text-engine-data blobs (what opening a type layer parses): long runs of every token piece,
     #      alone and in pairs, with and without a terminator -- super-linear scanning shows as HANG
     pieces = [b"\\", b"(", b")", b"\\)", b"\\(", b"\\\\", b"<<", b">>", b"[", b"]", b"/a", b" ", b"\n", b"1", b".", b"-", b"\xfe\xff", b"\x00", b"true"]
@@ -454,6 +493,7 @@ def run():
     res = run_batches(ck, inputs, mode="engine", secs=10)
     for cid, b in inputs:
         t, r = res.get(cid, (0.0, "WORKER-FAILED no outcome recorded"))
+        r = split_reads(r)[0]
         cls = r.split()[0]
         ck.count("engine:" + cls)
         slow = max(slow, t)
@@ -461,14 +501,107 @@ def run():
             ck.fail("engine-data-" + cls.lower() if cls != "ok" else "engine-data-slow", {"seed": "engine-data", "mutation": meta[cid][1], "bytes": b},
                     "%s after %.1f s" % (r, t), "parsed or rejected in time linear in its %d bytes" % len(b), stream="engine")
     total += len(inputs)
+    stage("engine-data")
+    # (e) cost: container-level reader vs the instrumented twin of Psd/Model.read_psd, and vs the proved linear bounds
+    thorough = ck.tier == "thorough"
+    docs = K.hand_docs() + K.gen_docs(ck, 120 if thorough else 30)
+    docs += [(n, b) for n, b in seeds(ck) if len(b) <= (3000 if thorough else 1000)]
+    cinputs, cmeta, seen = [], [], set()
+    for name, b in docs:
+        for desc, m in K.cost_mutants(ck, name, b, 60 if thorough else 16):
+            if m not in seen:
+                seen.add(m)
+                cinputs.append(m)
+                cmeta.append((name, desc))
+    couts = K.measure_all(cinputs)
+    ccases = []
+    for (name, desc), b, o in zip(cmeta, cinputs, couts):
+        code, reads, iters, nbytes = o
+        ck.count("cost:" + ("ok" if code == 0 else "err%d" % code))
+        if name.startswith("hand:") or desc != "full":
+            ck.nontriv(("c", name, desc))
+        if code in (97, 98):
+            ck.fail("container-read-" + ("memory" if code == 97 else "hang"), {"cost_bytes": b, "doc": name, "mutation": desc}, o,
+                    "PSD.read answers within the limits")
+            continue
+        if reads + iters > K.TICK_C * len(b) + K.TICK_K:
+            ck.fail("ticks-exceed-proved-bound", {"cost_bytes": b, "doc": name, "mutation": desc}, "%d fp.read calls + %d iterations on %d bytes" % (reads, iters, len(b)),
+                    "<= 2 * %d + 1 (Properties/C06.v read_psd_cost): every iteration of every loop consumes data or stops" % len(b))
+        if nbytes > K.BYTES_C * len(b):
+            ck.fail("bytes-returned-exceed-proved-bound", {"cost_bytes": b, "doc": name, "mutation": desc}, "%d bytes returned by reads of a %d-byte file" % (nbytes, len(b)),
+                    "<= 6 * %d (Properties/C06.v read_psd_bytes)" % len(b))
+        if code == 5:
+            ck.count("cost:overflow-class-not-compared")   # 8-byte length >= 2^63: CPython raises OverflowError (Psd/README.md, read_psd_py)
+            continue
+        ccases.append((list(b), o))
+    if ccases:
+        ck.sample({"cost_case": {"doc": cmeta[0][0], "impl [code, reads, iterations, bytes]": couts[0]}})
+    bad = ck.correspond("cost_twin", "observe_cost", COST_IMPORTS, ccases, zlist, chunk=90)
+    for i in bad[:3]:
+        ck.notes.append("cost twin/impl differ on %s (%d bytes): impl [code, reads, iters, bytes] = %r" % (bytes(ccases[i][0]).hex()[:400], len(ccases[i][0]), ccases[i][1]))
+    total += len(cinputs)
+    stage("cost-twin")
+    # (f) generic count maximiser: every payload class on a maximal / large / zero count at every offset
+    classes = K.payload_classes()
+    payloads = K.max_payloads(thorough)
+    mres = K.run_maximiser(classes, payloads)
+    worst_payload = -10 ** 9
+    for (_reg, mod, qn, _kw) in classes:
+        outs = mres.get((mod, qn))
+        if isinstance(outs, str) or outs is None:
+            ck.fail("payload-worker-failed", {"payload_class": [mod, qn], "payload": b""}, str(outs), "an outcome for every payload")
+            continue
+        for p, (r, reads, secs, mb) in zip(payloads, outs):
+            cls = r.split()[0]
+            ck.count("payload:" + (r if cls == "exc" else cls))
+            worst_payload = max(worst_payload, reads - K.FULL_C * len(p))
+            if cls in ("HANG", "MEMORY", "CRASH"):
+                ck.fail("payload-" + cls.lower(), {"payload_class": [mod, qn], "payload": p}, r, "parsed or rejected within the limits, memory bounded by the payload")
+            elif secs > 2:
+                ck.fail("payload-slow", {"payload_class": [mod, qn], "payload": p}, "%.1f s" % secs, "time linear in %d bytes" % len(p))
+            elif reads > K.FULL_C * len(p) + K.FULL_K:
+                ck.fail("payload-reads-exceed-linear-bound", {"payload_class": [mod, qn], "payload": p}, "%d fp.read calls on %d bytes (%s)" % (reads, len(p), r),
+                        "<= %d * %d + %d: every loop iteration consumes data or stops" % (K.FULL_C, len(p), K.FULL_K))
+        ck.nontriv(("p", qn))
+    total += len(classes) * len(payloads)
+    stage("payload-maximiser")
+    # (g) declared geometry: open (judged as every other open), then the decode entry points under the limit
+    gdocs = K.geometry_docs()
+    inputs = [(i, b) for i, (_n, b) in enumerate(gdocs)]
+    meta = {i: ("geometry", n) for i, (n, _b) in enumerate(gdocs)}
+    res = run_batches(ck, inputs)
+    judge(inputs, meta, res)
+    res = run_batches(ck, inputs, mode="decode", secs=60)
+    for cid, b in inputs:
+        t, r = res.get(cid, (0.0, "WORKER-FAILED no outcome recorded"))
+        r = split_reads(r)[0]
+        cls = r.split()[0]
+        ck.count("decode:" + cls)
+        slow = max(slow, t)
+        for part in (r.split(None, 3)[3].split(";") if cls == "ok" and len(r.split(None, 3)) > 3 else []):
+            ck.count("decode-call:" + part.split("=")[1])
+        if cls in ("HANG", "CRASH", "WORKER-FAILED"):
+            ck.fail("decode-" + cls.lower(), {"seed": "geometry", "mutation": meta[cid][1], "bytes": b}, r,
+                    "decoding pixel data of declared geometry ends in an image or an ordinary exception", stream="decode")
+    total += 2 * len(inputs)
+    stage("geometry")
+    ck.notes.append("stage seconds: %r" % stages)
     ck.evals += total
     ck.assumptions += [
         "interpreter crashes, wall-clock time and memory cannot be exhibited by a Gallina model: they are supervised at run time "
         "(RLIMIT_AS %d MB, SIGALRM %d s per input, worker exit status), over the generated mutants only" % (RLIMIT_MB, PER_INPUT_S),
-        "the loop theorems are generic over item readers that fail or consume >= 1 byte; that each concrete psd-tools item reader has this "
-        "progress property is checked for descriptor List/Integer by correspondence and otherwise only observed through the supervised runs",
+        "progress, totality and the linear cost bounds are theorems about Psd/Model.v (+ Descriptor/Effects/Patterns/Leaf.v for progress and fuel); the tick-counting "
+        "twin is tied to the code at container level only (payload registries emptied), by exact agreement of outcome, fp.read calls, item-reader calls and bytes returned "
+        "on the generated documents and mutants; inputs on which CPython raises OverflowError (8-byte lengths >= 2^63) are checked against the bounds but not compared",
+        "payload parsers (descriptors, effects, patterns, resources ...) have no tick theorem: their read count is held against an empirical envelope "
+        "(%d*len+%d) on the supervised opens and on the count-maximising payloads" % (K.FULL_C, K.FULL_K),
+        "decode-time allocation (not part of opening) is sized by declared geometry in: compression.decode_rle -> _rle.decode result.resize(row_size) per row "
+        "(row_size from the layer record's width: 2 GiB for a width of 2^31-1 over 10 bytes of data), PIL Image.frombytes / numpy arrays by header or layer size "
+        "(reached only after the decompressed length was checked), composite() buffers by viewport, zlib.decompress (expansion bounded by zlib); exercised by stream (g), "
+        "outcomes recorded, only hangs and crashes fail",
     ]
-    return ck.finish({"supervised_inputs": total, "slowest_open_s": round(slow, 3)})
+    return ck.finish({"supervised_inputs": total, "slowest_open_s": round(slow, 3), "worst_open_reads_minus_%dlen" % K.FULL_C: worst_reads[0],
+                      "worst_payload_reads_minus_%dlen" % K.FULL_C: worst_payload})
 
 
 def replay(path):
@@ -478,11 +611,23 @@ def replay(path):
         print("impl:", impl_header(bytes(inp["header"])), "| independent validity:", header_valid_independent(bytes(inp["header"])))
     elif "list_bytes" in inp:
         print("impl:", impl_list(bytes(inp["list_bytes"])))
+    elif "cost_bytes" in inp:
+        b = bytes.fromhex(inp["cost_bytes"]["hex"])
+        o = K.measure_all([b], workers=1)[0]
+        print("container-level PSD.read on %d bytes: [outcome, fp.read calls, iterations, bytes returned] = %r ; proved bounds: ticks <= %d, bytes <= %d"
+              % (len(b), o, 2 * len(b) + 1, 6 * len(b)))
+    elif "payload_class" in inp:
+        mod, qn = inp["payload_class"]
+        p = bytes.fromhex(inp["payload"]["hex"])
+        cls = [c for c in K.payload_classes() if (c[1], c[2]) == (mod, qn)]
+        print(K.run_maximiser(cls, [p], workers=1))
     else:
         b = bytes.fromhex(inp["bytes"]["hex"])
         ck = Check("C06")
         if fl.get("stream") == "engine":
             print(run_batches(ck, [(0, b)], mode="engine", secs=10))
+        elif fl.get("stream") == "decode":
+            print(run_batches(ck, [(0, b)], mode="decode", secs=60))
         else:
             print(run_batches(ck, [(0, b)]))
     print("expected:", fl["expected"], "| kind:", fl["kind"])
